@@ -11,7 +11,7 @@ def py_rowsel(r, variant=0):
         if variant % 7 == 5 and -128 <= r["i"] <= 127:
             return np.int8(r["i"])                  # a narrow numpy integer scalar
         if abs(r["i"]) >= 2 ** 31:
-            return np.int64(r["i"])
+            return int(r["i"]) if (variant % 2 == 0 or abs(r["i"]) >= 2 ** 63) else np.int64(r["i"])
         return int(r["i"]) if variant % 2 == 0 else np.int64(r["i"])
     if t == "slice":
         return slice(r["a"], r["b"], r["k"])
@@ -28,7 +28,10 @@ def py_colsel(c, variant=0):
     if c["t"] == "int":
         if variant % 7 in (5, 6) and -2 ** 15 <= c["i"] < 2 ** 15:
             return np.int8(c["i"]) if -128 <= c["i"] <= 127 else np.int16(c["i"])     # narrow numpy integer scalars
-        if variant % 7 == 4 or abs(c["i"]) >= 2 ** 31:
+        if abs(c["i"]) >= 2 ** 31:
+            # a huge column: a plain Python integer (even variants) or a 64-bit numpy scalar (odd variants)
+            return int(c["i"]) if (variant % 2 == 0 or abs(c["i"]) >= 2 ** 63) else np.int64(c["i"])
+        if variant % 7 == 4:
             return np.int64(c["i"])
         return int(c["i"])
     if c["t"] == "slice":
